@@ -7,7 +7,7 @@
    (C10_reserved_refuted, computed on the models of parser, converter and shell): known findings by class.
    Names of shell builtins, keywords and environment variables are outside the model (they need the shell's
    own name space); the check renames generated programs into all these classes and runs both versions. *)
-From Verif Require Import Base.Bytestr Front.Ast Back.BashLines Back.Transpile Back.BashConv Back.NameFacts Back.Reserved Sem.ExprPreserve.
+From Verif Require Import Base.Bytestr Front.Ast Back.BashLines Back.Transpile Back.BashConv Back.NameFacts Back.BatchConv Back.Reserved Sem.ExprPreserve.
 Open Scope N_scope.
 
 Theorem C10_converter_names_reserved :
@@ -33,6 +33,25 @@ Print Assumptions C10_locals_never_meet.
 Theorem C10_helpers_distinct : forall s k1 k2, helper_name s k1 = helper_name s k2 -> k1 = k2.
 Proof. exact helper_name_inj. Qed.
 Print Assumptions C10_helpers_distinct.
+
+(* The Batch back-end: the same class plus the newline variable LF under cmd.exe's case folding. *)
+Theorem C10_batch_names_reserved :
+  (forall s, reserved_batch (fst (w_next_helper s)) = true)
+  /\ (forall i, reserved_batch (fa_name i) = true)
+  /\ (forall i, reserved_batch (rv_name_w i) = true)
+  /\ (forall k, reserved_batch (bs "_fv" ++ dec_nat k) = true)
+  /\ (forall s x, w_funcs s <> [] -> reserved_batch (w_var_name s x false) = true)
+  /\ forallb reserved_batch [bs "_e"; bs "_dvc"; bs "_len"; bs "_i"; bs "_v"; bs "_sub"; bs "_sh"; bs "_l"; bs "_te"; bs "_h"; bs "_a"; bs "LF"] = true.
+Proof. exact batch_converter_names_reserved. Qed.
+Print Assumptions C10_batch_names_reserved.
+
+Theorem C10_batch_unreserved_never_captured : forall u,
+  reserved_batch u = false ->
+  (forall s, u <> fst (w_next_helper s)) /\ (forall i, u <> fa_name i) /\ (forall i, u <> rv_name_w i) /\ (forall k, u <> bs "_fv" ++ dec_nat k)
+  /\ (forall s x, w_funcs s <> [] -> u <> w_var_name s x false)
+  /\ ~ In u [bs "_e"; bs "_dvc"; bs "_len"; bs "_i"; bs "_v"; bs "_sub"; bs "_sh"; bs "_l"; bs "_te"; bs "_h"; bs "_a"; bs "LF"].
+Proof. exact batch_unreserved_never_captured. Qed.
+Print Assumptions C10_batch_unreserved_never_captured.
 
 Theorem C10_reserved_refuted : capture_result = Some (bs "6", bs "12").
 Proof. exact reserved_name_captured. Qed.
